@@ -55,7 +55,7 @@ def c05(tier):
             P = build(c["c"])
             for entry in ("attr", "derive"):
                 src = cf.item_src(P, c["D"], "T", "distinct", entry)
-                attr = ", ".join(c["D"]) if entry == "attr" else ""
+                attr = cf.dlist(c["D"]) if entry == "attr" else ""
                 if entry == "attr":
                     # the attribute macro receives its arguments separately
                     item = src[src.index("]") + 1:]
@@ -103,6 +103,33 @@ def c05(tier):
             item = src[src.index("]") + 1:] if ent == "attr" else src
             reqs.append({"k": "expand", "id": len(reqs), "entry": ent, "attr": ", ".join(D) if ent == "attr" else "", "item": item})
             meta.append((P, D, ent, "random", c))
+    # the same decisions with explicit bound(...) arguments written next to everything else (they stop / continue bound
+    # resolution and must not change what is accepted): per-trait, shared, and inside the helper attributes (first / last / `..`)
+    base_n = len(reqs)
+    grnd = random.Random(dx.seed() + 11)
+    step = 9 if tier == "quick" else 2
+    try:
+        for gi, guise in enumerate(("this_empty", "shared_empty", "helper_first", "helper_last", "helper_dd")):
+            cf.BOUND_GUISE = guise
+            for k, c in enumerate(cfgs):
+                if (k + gi) % step:
+                    continue
+                tag, build = shapes[(k // step) % len(shapes)]
+                P = build(c["c"])
+                entry = ("attr", "derive")[(k // step + gi) % 2]
+                src = cf.item_src(P, c["D"], "T", "distinct", entry)
+                reqs.append({"k": "expand", "id": len(reqs), "entry": entry, "attr": cf.dlist(c["D"]) if entry == "attr" else "",
+                             "item": src[src.index("]") + 1:] if entry == "attr" else src})
+                meta.append((P, c["D"], entry, tag + "+" + guise, c["c"]))
+            for j in range(base_n):
+                (P, D, entry, tag, c) = meta[j]
+                if tag.startswith("misplaced") or (tag == "random" and j % 5 == gi):
+                    src = cf.item_src(P, D, "T", "distinct", entry)
+                    reqs.append({"k": "expand", "id": len(reqs), "entry": entry, "attr": cf.dlist(D) if entry == "attr" else "",
+                                 "item": src[src.index("]") + 1:] if entry == "attr" else src})
+                    meta.append((P, D, entry, tag + "+" + guise, c))
+    finally:
+        cf.BOUND_GUISE = None
     dx.log("C05: %d expansions" % len(reqs))
     resps = dx.expand(reqs)
     events = []
@@ -413,12 +440,19 @@ def c17(tier):
     ck = dx.Check("C17", tier)
     cfgs, st = mc_cfgs(ck, tier, dsets="closed")
     Dsets = (["Eq", "PartialEq"], ["Eq", "PartialEq", "Hash"])
+    # with Ord co-derived the program can only compile if Ord itself does not need the field type: ord(by) or an Ord-typed ord(key)
+    Dsets_ord = (["Ord", "PartialOrd", "Eq", "PartialEq"], ["Ord", "PartialOrd", "Eq", "PartialEq", "Hash"])
     items = []
     for c in cfgs:
-        if c["D"] not in Dsets:
+        with_ord = sorted(c["D"]) in [sorted(d) for d in Dsets_ord]
+        if c["D"] not in Dsets and not with_ord:
             continue
         for ty in ("eq", "noneq"):
             for kty in ("eq", "noneq"):
+                if with_ord and not (c["c"]["ord"]["sel"] == "by" or (c["c"]["ord"]["sel"] == "key" and kty == "eq")):
+                    continue
+                if with_ord and (c["c"]["ord"]["ign"] or c["c"]["partial_ord"]["sel"] != "none" or c["c"]["partial_ord"]["ign"]):
+                    continue
                 anykey = any(c["c"][a]["sel"] == "key" for a in cf.ATTRS)
                 if kty == "noneq" and not anykey:
                     continue
@@ -436,6 +470,27 @@ def c17(tier):
                 ent = "any" if all(a in c["rec"] for a in present) else "derive"
                 for stag, P in Ps:
                     items.append((P, c["D"], ent, stag, c["c"]))
+    # two compared fields of the SAME PartialEq-only type: what one field does must not excuse the other (any order, same or different variants)
+    def pcfg(kind):
+        c = cf.plain()
+        if kind == "eq_key":
+            c["eq"] = {"ign": False, "rev": False, "sel": "key"}
+        elif kind == "ord_key":
+            c["ord"] = {"ign": False, "rev": False, "sel": "key"}
+        elif kind == "eq_by":
+            c["eq"] = {"ign": False, "rev": False, "sel": "by"}
+        elif kind == "eq_ign":
+            c["eq"] = {"ign": True, "rev": False, "sel": "none"}
+        return c
+    palette = ["plain", "eq_key", "ord_key", "eq_by", "eq_ign"]
+    for ka in palette:
+        for kb in palette:
+            for tya, tyb in (("noneq", "noneq"), ("noneq", "eq"), ("eq", "noneq")):
+                fa = lambda: cf.field(pcfg(ka), ty=tya, kty="eq", dom=2)
+                fb = lambda: cf.field(pcfg(kb), ty=tyb, kty="eq", dom=2)
+                for stag, P in (("pair_struct", cf.mkP("struct", [{"shape": "named", "fields": [fa(), fb()]}])),
+                                ("pair_variants", cf.mkP("enum", [{"shape": "tuple", "fields": [fa()]}, {"shape": "unit", "fields": []}, {"shape": "tuple", "fields": [cf.field(), fb()]}]))):
+                    items.append((P, ["Eq", "PartialEq"], "derive", stag, pcfg(ka)))
     # in-process: keep what derive_ex itself accepts (its own refusals are C05's subject), dedupe on impl tokens
     reqs = []
     for (P, D, entry, stag, c) in items:
